@@ -30,7 +30,7 @@ from pyvc.contracts import Case, contract
 from pyvc.values import SObj, Opaque
 from contracts.c05_format_cast import Built
 
-PROPS = ("C02", "C10")
+PROPS = ("C02", "C10", "C09")
 
 
 class _Val:
